@@ -151,8 +151,9 @@ def gen_event(rnd, table, valued_reset=True):
         else:
             for v in vals:
                 items.append([o["name"], v])
-        if not CT.is_listy(typ) and rnd.random() < 0.15:
-            # tagged class: Tor itself always uses the config/names spelling
+        if rnd.random() < 0.15:
+            # tagged class: Tor itself always uses the config/names spelling (list options included: the
+            # tracked list created for the event must still work under the option's real name)
             spell[o["name"]] = rnd.choice([o["name"].lower(), o["name"].upper()])
     return {"op": "event", "items": items, "spell": spell}
 
@@ -447,7 +448,7 @@ class Run(object):
             return
         if not self.cfg.needs_save():
             src = "bootstrap" if self.touch[n] == self.boot_touch[n] else ("own-save" if "+own-save" in cls else "event")
-            self.V("list-untracked-after-" + src, kind, {"option": n, "defined_by": cls, "read": repr(lst)[:200],
+            self.V("list-untracked-after-" + src, kind + ("+case-variant" if "+case-variant" in cls else ""), {"option": n, "defined_by": cls, "read": repr(lst)[:200],
                                            "what": "append() on the list read from the view did not make needs_save() true"})
             return
         n0 = len(self.link.transport.writes)
